@@ -964,4 +964,22 @@ example : (Vec.mk' [1, 2, 3, 4, 5] 1).WF := by
 example : retain [2] (Vec.mk' [1, 2, 3] 0) [.ret 1, .ret 0, .ret 1] =
     .ok ⟨{ slots := I [1, 3] ++ H 1, len := 2, dropLog := [2] }, .panic true, [.ret 1]⟩ := by decide
 
+/-- `extend_from_within_clone` of zero-sized values with a `Clone` that panics at any call: the vector grows by
+    exactly the clones that were made, NO destructor runs (the prototype is not a value), nothing else changes —
+    created = still owned -/
+theorem zst_extend_from_within_clone_exactly_once (v : Zst.ZVec) (count : Nat) (panicAt : Option Nat) :
+    (Zst.extendWithinClone v count panicAt).1.len = v.len + (Zst.extendWithinClone v count panicAt).2.1 ∧
+      (Zst.extendWithinClone v count panicAt).1.drops = v.drops ∧
+      (Zst.extendWithinClone v count panicAt).1.escaped = v.escaped ∧
+      (Zst.extendWithinClone v count panicAt).2.1 ≤ count ∧
+      ((Zst.extendWithinClone v count panicAt).2.2 = false → (Zst.extendWithinClone v count panicAt).2.1 = count) := by
+  unfold Zst.extendWithinClone
+  cases panicAt with
+  | none => simp
+  | some k => by_cases h : k < count <;> simp [h] <;> omega
+
+/-- … while the unguarded prototype costs one destructor call too many exactly when a clone panics -/
+example : (Zst.extendWithinClone { len := 3 } 3 (some 1)).1 = { len := 4 } ∧
+    (Zst.extendWithinCloneUnguarded { len := 3 } 3 (some 1)).1 = { len := 4, drops := 1 } := by decide
+
 end C06
